@@ -13,6 +13,9 @@ func init() {
 			if idx%5 == 4 {
 				o.faults = "err"
 			}
+			if idx%5 == 3 {
+				o.compactor = true
+			}
 			return genWrites(r, tier, idx, o)
 		},
 		Epilogue: writesEpilogue,
